@@ -66,7 +66,7 @@ ASSUMPTIONS = [
     'mtime, decides what a load returns)',
 ]
 BOUND = {
-    'quick': 'all 11x11x10 one-row triples; 2/3-row windows; 1000/1024/2048 rows; 9 fixed + 384 ASCII-template headers; 1..5 coords; all 1- and 2-defect refusals; '
+    'quick': 'all 11x11x10 one-row triples; 2/3-row windows; 1000/1024/2048 rows; 53 fixed (incl. 40 already-commented first lines followed by uncommented ones) + 384 ASCII-template headers; 1..5 coords; all 1- and 2-defect refusals; '
              'all 16 coordinate subsets x 81 alignment assignments x coord choices x 2 productions (2 376 calls per target); 58 target representation x suffix x pre-existing-file cases',
     'thorough': 'quick bound plus: 119x83 value/variance product at every position of 1..4 rows x 12 targets (1.19e6 round trips); '
                 '6 294 powers of two +- 1 ulp, 4 x 120 000 decimal-digit numbers, 15 436 square-root cases, 18 432 mantissa patterns; '
@@ -106,6 +106,9 @@ VARS = [5e-324, 1e-310, 1e-20, 0.3, 2.0, 1e300, 0.0, F64_MAX, 1.0, 2.5e-323]  # 
 CYC_V, CYC_C, CYC_E = VALUES, COORDS[:9], VARS  # 11, 9, 10 -> period 990
 TARGETS = ('sio', 'path_str', 'path_obj', 'fh')
 FIXED_HEADERS = ['', 'x', 'a\nb', '# x', 'a\n\nb', '1 2 3', 'a\rb', '#' * 80, 'a\r\nb', '\n', '1 2 3\n4 5 6', 'x\n', 'a\r1 2 3']
+# round 6: headers that already look commented out (copied from an existing file, or in another format's comment style)
+# followed by further lines that are not - every line of the header must still end up behind the comment marker
+FIXED_HEADERS += [pre + tail for pre in ('# ', '#', '## ', ' # ', '% ', '; ', '// ', '#\t') for tail in ('a\nb', 'a\n1 2 3', '1 2 3\n4 5 6', 'a\r7 8 9', '\n1 2 3')]
 TEMPLATES = ('a{c}b', '{c}', 'a{c}1 2 3')
 DEFECTS = ('novar', 'edges', 'mask', 'ndim0', 'ndim2', 'nocoord', 'ambiguous')
 INCOMPATIBLE = {
